@@ -32,6 +32,7 @@ def custom(run, tier):
 
 PROP = {
     "id": "C14",
+    "tie2": ["Tie2SmlErrPos"],
     "harness": "c14",
     "driver": "c14",
     "n_quick": 3000,
